@@ -8,7 +8,7 @@ Logging goes through the library's systemLog and the caller-supplied logFn.
 
 import copy
 
-from ..common import HarnessError, canon, load_impl, same_result
+from ..common import HANG, HarnessError, ImplHang, canon, cpu_watchdog, load_impl, same_result
 from ..engine.tape import Tape
 from ..ref import bigstep
 from ..ref import values as rv
@@ -66,7 +66,10 @@ class Program:
         glob['pk'] = lambda args, options: list(PK[tape.ask('pk', len(PK))])
         options = {'globals': glob, 'logFn': logs.append, 'maxStatements': HORIZON}
         try:
-            res = ('ok', canon(bs.execute_script(model if model is not None else self.model, options)))
+            with cpu_watchdog():
+                res = ('ok', canon(bs.execute_script(model if model is not None else self.model, options)))
+        except ImplHang:
+            return {'result': HANG, 'logs': logs[:50], 'globals': {}, 'points': tape.points[:50]}
         except bs.BareScriptRuntimeError as exc:
             msg = str(exc)
             res = ('horizon',) if msg.startswith('Exceeded maximum script statements') else ('raise', 'BareScriptRuntimeError', msg)
